@@ -510,7 +510,7 @@ class Program:
     # ---- lookup ------------------------------------------------------------
 
     def module(self, name: str) -> Module:
-        full = name if name.startswith(PKG) else f'{PKG}.{name}'
+        full = name if name.startswith(PKG + '.') else (PKG if name == '' else f'{PKG}.{name}')
         if full not in self.modules:
             raise AnalysisError(f'anchor module {full} not found')
         return self.modules[full]
